@@ -38,7 +38,12 @@ def corruptions(schema, rng, k):
     pos = list(positions.rule_sets(schema))
     out = []
     for path, pkind, rules in rng.sample(pos, min(len(pos), k)):
-        choice = rng.randrange(8)
+        choice = rng.randrange(9)
+        if choice == 8:
+            # a reference to a registry entry that exists but is itself ill-formed
+            if pkind in ('field', 'dict-schema', 'keysrules', 'valuesrules', 'items', 'list-schema', 'allow_unknown-rule'):
+                out.append(("invalid-definition-reference", pkind, positions.set_at(schema, path, 'BAD_RULES_SET')))
+            continue
         if choice == 6:
             # the rules set itself is not a mapping (nor a name)
             bad = rng.choice([5, None, 1.5, [1], ('type', 'string')])     # (a bool is a legal allow_unknown value)
@@ -148,6 +153,10 @@ def encode_accept(schema, cfg):
     return " ".join(out)
 
 
+# an ill-formed definition in the module-level registry (registries expand definitions on add, they do not validate them)
+cerberus.rules_set_registry.add('BAD_RULES_SET', {'type': 'nosuchtype'})
+
+
 def real_accepts(schema, cfg):
     pool.PoolValidator.clear_caches()
     cerberus.Validator.clear_caches()
@@ -249,7 +258,7 @@ def run(ctx):
             real = real_accepts(sch, cfg2)
             modelled += 1
             if m.get("r") != real and not (real.startswith("raise") and m.get("r") == "rejected"):
-                sig = "accepted:dangling-reference" if (kind == "dangling-reference" and real == "accepted") else "model-vs-code:acceptance"
+                sig = ("accepted:" + kind) if (kind in ("dangling-reference", "invalid-definition-reference") and real == "accepted") else "model-vs-code:acceptance"
                 violations.append({"signature": sig, "what": "documented grammar says %s, the real validator %s (%s)" % (m.get("r"), real, kind),
                                    "replay": {"good": common.jval(sch), "bad": common.jval(sch), "config": common.jval(cfg2), "entry": "constructor",
                                               "kind": kind, "position": "?", "probe": {"d": []}}})
